@@ -2,13 +2,17 @@
 dicom-rs functions use.  Scalars are z3 terms, aggregates/containers are Python objects of concrete shape, control flow
 forks (decision-replay DFS) on every branch the solver can take both ways.  Calls to functions whose MIR is loaded are
 inlined; any other call must be in the contract table (`call`) or the run aborts as NotEncodable."""
-import re, sys, time, itertools
+import os, re, sys, time, itertools
 from z3 import *
 
 MIR = ''
 FNS = {}
 
 
+LAST_STMT = ['']
+SELF_TYPES = []
+MIR_OPS = set('Not Neg Add Sub Mul Div Rem BitAnd BitOr BitXor Shl Shr Eq Ne Lt Le Gt Ge Cmp Offset PtrMetadata Len AddWithOverflow SubWithOverflow MulWithOverflow AddUnchecked SubUnchecked MulUnchecked ShlUnchecked ShrUnchecked UbChecks NullOp SizeOf AlignOf CopyForDeref ShallowInitBox'.split())
+SIMPLE_CONSTS = {}
 class NotEncodable(Exception):
     pass
 
@@ -27,7 +31,9 @@ class Fn:
 
 def parse_functions(text):
     fns = {}
-    for m in re.finditer(r'^const ([^\n]+?::promoted\[\d+\]): ([^\n]*?) = \{\n(.*?)^\}', text, re.S | re.M):
+    for m in re.finditer(r'^const ([^\n]+): ((?:[^\n:]|::)*?) = const ([^\n]+);$', text, re.M):
+        SIMPLE_CONSTS[m.group(1)] = (m.group(2), m.group(3))
+    for m in re.finditer(r'^const ([^\n]+): ((?:[^\n{:]|::)*?) = \{\n(.*?)^\}', text, re.S | re.M):
         blocks = {}
         for bm in re.finditer(r'^    (bb\d+)(?: \(cleanup\))?: \{\n(.*?)^    \}', m.group(3), re.S | re.M):
             blocks[bm.group(1)] = [l.strip() for l in bm.group(2).split('\n') if l.strip()]
@@ -76,9 +82,21 @@ CLOSURE_OF = {}
 KEEP = []
 CURRENT_FN = []
 
+def concrete_index(v):
+    if isinstance(v, int): return v
+    v = simplify(v)
+    if is_bv_value(v) or is_int_value(v): return v.as_long()
+    raise NotEncodable('symbolic array index')
+def seq_store(v):
+    if hasattr(v, 'store'): return v.store(), getattr(v, 'off', 0)
+    if isinstance(v, Struct): return v.f, 0
+    if isinstance(v, Str): return v.b, 0
+    return v.items, 0
 def proj_get(v, p):
     kind, arg = p
-    if kind == 'deref': return v.get()
+    if kind == 'index':
+        st, off = seq_store(v); return st[off + arg]
+    if kind == 'deref': return v.get() if isinstance(v, Ref) else v     # constants (b"..", promoted) are kept unwrapped
     if kind == 'field': return v.f[arg]
     if kind == 'downcast': return v
     raise Exception(p)
@@ -90,6 +108,9 @@ def proj_set(v, path, nv):
         return v
     if kind == 'field':
         v.f[arg] = nv if not rest else proj_set(v.f[arg], rest, nv); return v
+    if kind == 'index':
+        st, off = seq_store(v)
+        st[off + arg] = nv if not rest else proj_set(st[off + arg], rest, nv); return v
     if kind == 'downcast': return proj_set(v, rest, nv) if rest else nv
     raise Exception(path)
 
@@ -108,6 +129,12 @@ def parse_place(s):
     s = s.strip()
     m = re.fullmatch(r'_(\d+)', s)
     if m: return (int(m.group(1)), [])
+    mi = re.fullmatch(r'(.*)\[_(\d+)\]', s)
+    if mi and (mi.group(1).count('(') == mi.group(1).count(')')):
+        base, path = parse_place(mi.group(1)); return (base, path + [('index_local', int(mi.group(2)))])
+    mi = re.fullmatch(r'(.*)\[(\d+) of \d+\]', s)
+    if mi and (mi.group(1).count('(') == mi.group(1).count(')')):
+        base, path = parse_place(mi.group(1)); return (base, path + [('index', int(mi.group(2)))])
     if s.startswith('(*') and s.endswith(')'):
         base, path = parse_place(s[2:-1]); return (base, path + [('deref', None)])
     if s.startswith('(') and s.endswith(')'):
@@ -132,6 +159,8 @@ class Frame:
         return self.locals[n]
     def ref(self, place):
         base, path = place
+        if any(k == 'index_local' for k, _ in path):
+            path = [('index', concrete_index(self.cell(a).v)) if k == 'index_local' else (k, a) for k, a in path]
         return Ref(self.cell(base), path)
 
 # ---------------------------------------------------------------- interpreter state (forking by exceptions + replay of decisions)
@@ -188,12 +217,24 @@ def eval_operand(fr, s, ctx):
             cands = [n for n in FNS if 'promoted[' in n and (stripped == n or stripped.endswith('::' + n))]
             if len(cands) == 1: return run_fn(cands[0], [], ctx)
             raise NotEncodable('promoted constant ' + c)
+        mc = re.fullmatch(r'(?:core::num::<impl )?([ui])(8|16|32|64|size)>?::(MAX|MIN)', c)
+        if mc:
+            w = 64 if mc.group(2) == 'size' else int(mc.group(2))
+            val = {('u', 'MAX'): (1 << w) - 1, ('u', 'MIN'): 0, ('i', 'MAX'): (1 << (w - 1)) - 1, ('i', 'MIN'): -(1 << (w - 1))}[(mc.group(1), mc.group(3))]
+            return val if mc.group(2) == 'size' else BitVecVal(val, w)
         if c in ('true', 'false'): return c == 'true'
         if c.startswith('b"'):
             return rust_bytes(c[2:-1])
         if c.startswith('"'):
             lit = bytes(c[1:-1], 'utf-8').decode('unicode_escape').encode('latin-1')
             return Str(list(lit))
+        if re.fullmatch(r'(?:\w+::)*[A-Za-z_]\w*', c):     # named constant of the dumped crates
+            segs = c.split('::')
+            sc = [k for k in SIMPLE_CONSTS if k == c or k.endswith('::' + segs[-1]) or k == segs[-1]]
+            if len(sc) == 1: return eval_operand(fr, 'const ' + SIMPLE_CONSTS[sc[0]][1], ctx)
+            cf = [n for n, f in FNS.items() if f.params == 0 and not f.ptext and n.endswith('>::' + segs[-1]) and
+                  (len(segs) < 2 or f.ret.strip().split('::')[-1] == segs[-2] or segs[-2] in n)]
+            if len(cf) == 1: return run_fn(cf[0], [], ctx)
         return ('const', c)
     if re.match(r'^(<.*>|[A-Za-z_][\w:]*)(::<.*>)?::\w+(::<.*>)?$', s) and not re.fullmatch(r'_\d+', s):
         return ('fnitem', s)          # a function item passed as a value (e.g. to map_err)
@@ -223,6 +264,17 @@ def find_closure(c):
         m = re.search(re.escape(n) + r'\(_1: (&mut |&)?\{closure@' + re.escape(loc), MIR)
         if m: return n
     raise Exception('closure ' + loc)
+
+ENUMS = {}               # 'Type::Variant' -> discriminant, registered by the case modules for enums built by the executed code
+def enum_variant_of(path):
+    segs = [x for x in re.sub(r'::<[^<>]*(<[^<>]*>[^<>]*)*>', '', path).split('::') if x]
+    if len(segs) >= 2 and (segs[-2] + '::' + segs[-1]) in ENUMS: return (segs[-1], ENUMS[segs[-2] + '::' + segs[-1]])
+    return None
+
+def disc_value(e, ctx):
+    if hasattr(e, 'idx'): return e.idx
+    if e.variant in DISC: return DISC[e.variant]
+    return 1 if option_is_some(e, ctx) else 0
 
 def eval_rvalue(fr, rv, ctx):
     rv = rv.strip()
@@ -265,10 +317,33 @@ def eval_rvalue(fr, rv, ctx):
     if m: return ('opaque', m.group(1))
     m = re.fullmatch(r"Cow::<.*>::(Owned|Borrowed)\((.*)\)", rv)
     if m: return eval_operand(fr, m.group(2), ctx)
-    m = re.fullmatch(r'(Mul|Div)\((.*)\)', rv)
+    m = re.fullmatch(r'(Mul|Div|Rem|BitOr|BitXor|Shl|Shr|MulUnchecked|AddUnchecked|SubUnchecked|ShlUnchecked|ShrUnchecked)\((.*)\)', rv)
     if m:
-        a, b = [eval_operand(fr, o, ctx) for o in split_top(m.group(2))]
-        return fpMul(RNE(), a, b) if m.group(1) == 'Mul' else fpDiv(RNE(), a, b)
+        ops = split_top(m.group(2))
+        a, b = [eval_operand(fr, o, ctx) for o in ops]
+        op = m.group(1).replace('Unchecked', '')
+        if (is_expr(a) and is_fp(a)) or (is_expr(b) and is_fp(b)):
+            if op == 'Mul': return fpMul(RNE(), a, b)
+            if op == 'Div': return fpDiv(RNE(), a, b)
+            raise NotEncodable('float ' + op)
+        if isinstance(a, bool): a = int(a)
+        if isinstance(b, bool): b = int(b)
+        if isinstance(a, int) and isinstance(b, int):
+            if op in ('Div', 'Rem') and b == 0: raise NotEncodable('reachable division by zero')
+            return {'Mul': lambda: a * b, 'Div': lambda: abs(a) // abs(b) * (1 if (a < 0) == (b < 0) else -1), 'Rem': lambda: abs(a) % abs(b) * (1 if a >= 0 else -1),
+                    'BitOr': lambda: a | b, 'BitXor': lambda: a ^ b, 'Shl': lambda: a << b, 'Shr': lambda: a >> b, 'Add': lambda: a + b, 'Sub': lambda: a - b}[op]()
+        # symbolic: width of the bit-vector operand; signedness from the declared type of the first operand's local
+        w = (a if not isinstance(a, int) else b).size()
+        if op in ('Shl', 'Shr') and not isinstance(b, int) and b.size() != w:
+            b = Extract(w - 1, 0, b) if b.size() > w else ZeroExt(w - b.size(), b)
+        a = BitVecVal(a, w) if isinstance(a, int) else a
+        b = BitVecVal(b, w) if isinstance(b, int) else b
+        ml = re.search(r'_(\d+)', ops[0])
+        ty = getattr(CURRENT_FN[-1], 'types', {}).get(int(ml.group(1)), '') if ml else ''
+        signed = bool(re.search(r'\bi(8|16|32|64|size)\b', ty))
+        return {'Mul': lambda: a * b, 'Div': lambda: (a / b) if signed else UDiv(a, b), 'Rem': lambda: SRem(a, b) if signed else URem(a, b),
+                'BitOr': lambda: a | b, 'BitXor': lambda: a ^ b, 'Shl': lambda: a << b, 'Shr': lambda: (a >> b) if signed else LShR(a, b),
+                'Add': lambda: a + b, 'Sub': lambda: a - b}[op]()
     m = re.fullmatch(r'(BitAnd|Eq|Ne|Lt|Le|Gt|Ge|Add|Sub)\((.*)\)', rv)
     if m:
         a, b = [eval_operand(fr, o, ctx) for o in split_top(m.group(2))]
@@ -277,6 +352,8 @@ def eval_rvalue(fr, rv, ctx):
             rm = RNE()
             return {'Add': lambda: fpAdd(rm, a, b), 'Sub': lambda: fpSub(rm, a, b), 'Le': lambda: fpLEQ(a, b), 'Lt': lambda: fpLT(a, b),
                     'Gt': lambda: fpGT(a, b), 'Ge': lambda: fpGEQ(a, b), 'Eq': lambda: fpEQ(a, b)}[op]()
+        if isinstance(a, tuple) and a and a[0] == 'disc': a = disc_value(a[1], ctx)
+        if isinstance(b, tuple) and b and b[0] == 'disc': b = disc_value(b[1], ctx)
         if op == 'BitAnd': return a & b
         if op == 'Eq': return a == b
         if op == 'Ne': return a != b
@@ -323,17 +400,23 @@ def eval_rvalue(fr, rv, ctx):
         if len(parts) > 1 or rv.endswith(',)'):
             return Struct([eval_operand(fr, o, ctx) for o in parts])
     m = re.fullmatch(r"((?:[A-Za-z_]\w*::)*[A-Z]\w*)(::<.*?>)?\((.*)\)", rv)
-    if m and not rv.startswith(('move ', 'copy ', 'const ')) and ('::' in m.group(1) or m.group(2)):   # tuple-struct constructor (always printed with a path or generics)
+    if m and not rv.startswith(('move ', 'copy ', 'const ')) and ('::' in m.group(1) or m.group(2) or m.group(1) not in MIR_OPS):   # tuple-struct constructor (always printed with a path or generics)
         st = Struct([eval_operand(fr, o, ctx) for o in split_top(m.group(3))])
         st.kind = m.group(1).split('::')[-1] + (m.group(2)[2:] if m.group(2) else '')
+        ev = enum_variant_of(rv[:rv.index('(')])
+        if ev: e = Enum(ev[0], st.f); e.idx = ev[1]; return e
         return st
     m = re.fullmatch(r"((?:[A-Za-z_]\w*::)*[A-Z]\w*)(::<.*?>)? \{ (.*) \}", rv)
     if m:                                                                          # struct aggregate
         st = Struct([eval_operand(fr, part.split(':', 1)[1], ctx) for part in split_top(m.group(3))])
         st.kind = m.group(1).split('::')[-1]
+        ev = enum_variant_of(rv[:rv.index(' {')])
+        if ev: e = Enum(ev[0], st.f); e.idx = ev[1]; return e
         return st
     if re.fullmatch(r'(?:[A-Za-z_]\w*::)*[A-Z]\w*', rv) and not rv.startswith(('move ', 'copy ', 'const ')):
         e = Enum(rv.split('::')[-1], [])          # unit enum variant / unit struct
+        ev = enum_variant_of(rv)
+        if ev: e.idx = ev[1]
         if e.variant in VRNAMES: e.idx = VRNAMES.index(e.variant)
         return e
     m = re.fullmatch(r'PtrMetadata\((.*)\)', rv)
@@ -514,8 +597,8 @@ def call(fr, callee, args, ctx):
     if c.startswith('<once_cell::sync::Lazy<') and c.endswith('as Deref>::deref'): return Ref(Cell(REGISTRY))
     if c == 'String::new': return Str([])
     if 'impl [' in c and c.endswith('::iter'):
-        a0 = args[0]
-        return SliceIter([Ref(Cell(e)) for e in (a0.items if isinstance(a0, VecV) else a0.get().f)])
+        st_, off_ = seq_store(_d(args[0]))
+        return SliceIter([Ref(Cell(e)) for e in st_[off_:]])
     if c.endswith('as Iterator>::rev'): return Rev(args[0])
     if c.endswith('as Iterator>::peekable'): return Peekable(args[0])
     if re.match(r'Peekable::<.*>::next_if::', c):
@@ -624,7 +707,8 @@ def call(fr, callee, args, ctx):
     if re.match(r'SmallVec::<.*>::is_empty', c): return len(args[0].get().items) == 0
     if re.match(r'<SmallVec<.*> as Deref>::deref', c): return args[0].get()
     m = re.match(r'core::slice::<impl \[(\w+)\]>::iter', c)
-    if m: return SliceIter([Ref(Cell(e)) for e in args[0].items])
+    if m:
+        st_, off_ = seq_store(_d(args[0])); return SliceIter([Ref(Cell(e)) for e in st_[off_:]])
     if re.search(r'as Iterator>::map::<', c): return MapIter(args[0], args[1])
     if re.search(r'as Iterator>::collect::<std::result::Result<Vec<T>', c):
         out = []
@@ -692,9 +776,13 @@ def call(fr, callee, args, ctx):
             if not some: return Enum('None', [])
             r = callc(args[1], Ref(Cell(o.f[0]))); keep = ctx.branch(r) if not isinstance(r, bool) else r
             return Enum('Some', [o.f[0]]) if keep else Enum('None', [])
+    if re.fullmatch(r'<(S|String|&str|str) as AsRef<(str|\[u8\])>>::as_ref', c): return _d(args[0])
+    mi_ = re.fullmatch(r'<T as Into<(?:\w+::)*(\w+)>>::into', c)
+    if mi_ and GENERICS and GENERICS[-1] and GENERICS[-1][0].split('::')[-1] == mi_.group(1): return args[0]
+    if c in ('core::str::<impl str>::as_bytes', 'String::as_bytes', 'std::string::String::as_bytes'): return _d(args[0])
     ms = re.match(r'core::slice::<impl \[.*\]>::(is_empty|len|iter|first|last)$', c)
     if ms:
-        v = _d(args[0]); xs = v.items if isinstance(v, VecV) else (v.b if isinstance(v, Str) else v.f)
+        v = _d(args[0]); xs = seq_store(v); xs = xs[0][xs[1]:]
         k = ms.group(1)
         if k == 'is_empty': return len(xs) == 0
         if k == 'len': return len(xs)
@@ -704,6 +792,10 @@ def call(fr, callee, args, ctx):
     if re.match(r'(Vec|SmallVec)::<.*>::(new|with_capacity)$', c): return VecV([])
     if re.match(r'(Vec|SmallVec)::<.*>::is_empty$', c): return len(_d(args[0]).items) == 0
     if re.match(r'(Vec|SmallVec)::<.*>::push$', c): _d(args[0]).items.append(args[1]); return None
+    if re.match(r'(Vec|SmallVec)::<.*>::pop$', c):
+        xs = _d(args[0]).items
+        return Enum('Some', [xs.pop()]) if xs else Enum('None', [])
+    if re.match(r'(Vec|SmallVec)::<.*>::clear$', c): del _d(args[0]).items[:]; return None
     if re.match(r'Vec::<.*>::append$', c):
         dst, src = _d(args[0]), _d(args[1]); dst.items.extend(src.items); src.items = []; return None
     if re.match(r'SmallVec::<.*>::from_vec$', c): return args[0]
@@ -848,18 +940,41 @@ def call(fr, callee, args, ctx):
     if c == '<str as ToOwned>::to_owned' or c == '<String as Clone>::clone': 
         v = args[0].get() if isinstance(args[0], Ref) else args[0]
         return Str(list(v.b))
-    m = re.fullmatch(r'(?:\w+::)*(\w+)(?:::<[^>]*>)?::(\w+)', c)
+    m = re.fullmatch(r'(?:\w+::)*(\w+)(?:::<[^>]*>)?::(\w+)(?:::<(.*)>)?', c)
     if m:      # inherent method written Type::method: resolve to the impl fn with that receiver type
         ty, meth = m.group(1), m.group(2)
         cands = [n for n, f in FNS.items() if n.endswith('::' + meth) and '<impl at' in n and re.match(r'_1: &?(mut )?(?:\w+::)*%s\b' % re.escape(ty), f.ptext)]
-        if len(cands) == 1: return run_fn(cands[0], args, ctx)
-    m = re.fullmatch(r'<(.+) as (\w+)(<.*>)?>::(\w+)', c)
+        if len(cands) > 1: cands = [n for n in cands if FNS[n].params == len(args)]
+        if len(cands) != 1:    # associated function without a receiver (constructor): resolve by the result type
+            cands = [n for n, f in FNS.items() if n.endswith('::' + meth) and '<impl at' in n and re.fullmatch(r'(?:\w+::)*%s(<.*>)?' % re.escape(ty), f.ret.strip())
+                     and len(args) == f.params]
+        if len(cands) == 1:
+            GENERICS.append(split_top(m.group(3)) if m.group(3) else [])
+            try: return run_fn(cands[0], args, ctx)
+            finally: GENERICS.pop()
+    if c.startswith('<Self as ') and SELF_TYPES:
+        return call(fr, '<' + SELF_TYPES[-1] + c[5:], args, ctx)
+    m = re.fullmatch(r'<(.+) as (\w+)(<.*>)?>::(\w+)(?:::<.*>)?', c)
     if m:      # trait method call on a type of the dumped crates: resolve to the impl fn by receiver / result type
         norm = lambda t: re.sub(r"<'_>|'_ |'\w+ ", '', t).strip()
         ty, meth = norm(m.group(1)), m.group(4)
         cands = [n for n, f in FNS.items() if n.endswith('::' + meth) and '<impl at' in n and
                  (norm(f.ret) == ty or re.match(r'_1: &?(mut )?%s(?![\w<])' % re.escape(ty), norm(f.ptext)))]
         if len(cands) == 1: return run_fn(cands[0], args, ctx)
+        if not cands and re.fullmatch(r'(\w+::)+\w+', ty):
+            short = ty.split('::')[-1]
+            cands = [n for n, f in FNS.items() if n.endswith('::' + meth) and '<impl at' in n and
+                     re.match(r'_1: &?(mut )?(?:\w+::)*%s(?![\w<])' % re.escape(short), norm(f.ptext))]
+            if meth in ('eq', 'ne', 'cmp', 'partial_cmp'):
+                cands = [n for n in cands if re.search(r'_2: &?(?:\w+::)*%s(?![\w<])' % re.escape(short), norm(FNS[n].ptext))]
+            if len(cands) == 1: return run_fn(cands[0], args, ctx)
+        if not cands:     # provided (default) method of the trait, executed with Self = the receiver type
+            dn = m.group(2) + '::' + meth
+            dflt = [n for n in FNS if n == dn or n.endswith('::' + dn)]
+            if len(dflt) == 1:
+                SELF_TYPES.append(m.group(1))
+                try: return run_fn(dflt[0], args, ctx)
+                finally: SELF_TYPES.pop()
     m = re.fullmatch(r'((?:\w+::)*\w+)(?:::<(.*)>)?', c)
     if m:      # free function of the dumped crates called with explicit generic arguments
         nm = m.group(1)
@@ -890,6 +1005,13 @@ def run_fn(name, args, ctx, depth=0):
     CURRENT_FN.append(FNS[name])
     try:
         return run_fn_(name, args, ctx, depth)
+    except Fork:
+        raise
+    except Exception as ex:
+        if os.environ.get('MDEBUG') and not getattr(ex, '_shown', False):
+            ex._shown = True
+            sys.stderr.write('MDEBUG in %s at: %s\n' % (name, LAST_STMT[0]))
+        raise
     finally:
         CURRENT_FN.pop()
 def run_fn_(name, args, ctx, depth=0):
@@ -902,6 +1024,7 @@ def run_fn_(name, args, ctx, depth=0):
         nxt = None
         for st in stmts:
             st = st.rstrip(';')
+            LAST_STMT[0] = st
             if st.startswith(('StorageLive', 'StorageDead', 'nop', 'FakeRead', 'PlaceMention', 'Retag')): continue
             if st == 'return': return fr.cell(0).v
             m = re.fullmatch(r'goto -> (bb\d+)', st)
